@@ -201,7 +201,9 @@ impl DbInner {
 	fn open(options: &Options, opening_mode: OpeningMode) -> Result<DbInner> {
 		if opening_mode == OpeningMode::Create {
 			try_io!(std::fs::create_dir_all(&options.path));
-		} else if !options.path.is_dir() {
+		} else if !options.path.is_dir() || !options.path.join("metadata").exists() {
+			// Nothing to open: report it before the lock file is created, so that a failed
+			// open of a missing database leaves nothing behind.
 			return Err(Error::DatabaseNotFound)
 		}
 
